@@ -93,3 +93,83 @@ def diff_text(a, b):
         return ""
     k = bad[0]
     return "component %s: code gives %s, documented %s" % (k, str(a.comps[k])[:220], str(b.comps.get(k))[:220])
+
+
+# ---------------------------------------------------------------------------- derived buffers are recomputed before use
+IBFI_FILE = "sopht/simulator/immersed_body/immersed_body_flow_interaction.py"
+VBF_FILE = "sopht/numeric/immersed_boundary_ops/VirtualBoundaryForcing.py"
+EVALUATIONS = ("__call__", "compute_interaction_on_lag_grid", "compute_flow_forces_and_torques")
+
+
+def evaluation_orders(repo):
+    """for every evaluation entry point of the interaction class: the forcing-grid methods it calls, in program order
+    (straight-line code only; calls to the class' own methods are followed)"""
+    import ast
+    import os
+    tree = ast.parse(open(os.path.join(repo, IBFI_FILE)).read())
+    cls = next((n for n in tree.body if isinstance(n, ast.ClassDef) and n.name == "ImmersedBodyFlowInteraction"), None)
+    if cls is None:
+        raise Unsupported("anchor vanished: ImmersedBodyFlowInteraction")
+    if "forcing_grid" in open(os.path.join(repo, VBF_FILE)).read():
+        raise Unsupported("VirtualBoundaryForcing now refers to a forcing grid: the evaluation-order extraction does not follow it")
+    meths = {f.name: f for f in cls.body if isinstance(f, ast.FunctionDef)}
+
+    def calls_grid(node):
+        return any(isinstance(n, ast.Attribute) and n.attr == "forcing_grid" for n in ast.walk(node))
+
+    def flat(name, depth=0):
+        if depth > 8:
+            raise Unsupported("recursive evaluation methods")
+        out = []
+        for st in meths[name].body:
+            if isinstance(st, ast.Expr) and isinstance(st.value, ast.Constant):
+                continue
+            calls = [n for n in ast.walk(st) if isinstance(n, ast.Call) and isinstance(n.func, ast.Attribute)]
+            grid_calls = [c for c in calls if isinstance(c.func.value, ast.Attribute) and c.func.value.attr == "forcing_grid"
+                          and isinstance(c.func.value.value, ast.Name) and c.func.value.value.id == "self"]
+            own_calls = [c for c in calls if isinstance(c.func.value, ast.Name) and c.func.value.id == "self" and c.func.attr in meths]
+            if (grid_calls or own_calls) and not isinstance(st, (ast.Expr, ast.Assign, ast.Return)):
+                raise Unsupported("forcing-grid call under control flow in %s (line %d): evaluation order is not straight-line" % (name, st.lineno))
+            seq = sorted(grid_calls + own_calls, key=lambda c: (c.end_lineno, c.end_col_offset))   # inner calls finish first
+            for c in seq:
+                if c in grid_calls:
+                    out.append((c.func.attr, c.lineno))
+                else:
+                    out.extend(flat(c.func.attr, depth + 1))
+        return out
+    res = {}
+    for m in EVALUATIONS:
+        if m not in meths:
+            raise Unsupported("anchor vanished: ImmersedBodyFlowInteraction.%s" % m)
+        res[m] = flat(m)
+    return res
+
+
+def stale_reads(repo, relfile, cls, dim):
+    """def-use rule: a buffer that any compute_*/transfer method of the grid (re)computes from the body state must be written in
+    an evaluation before that evaluation reads it.  Returns (derived buffers, {evaluation: [stale read descriptions]})."""
+    g = analysed(repo, relfile, cls, dim)
+    per, cur = {}, None
+    for ev in g.events:
+        if ev[0] == "enter":
+            cur = per.setdefault(ev[1], [])
+        elif ev[0] == "exit":
+            cur = None
+        elif cur is not None:
+            cur.append(ev)
+    derived = {ev[1] for evs in per.values() for ev in evs if ev[0] == "set"}
+    out = {}
+    for m, seq in evaluation_orders(repo).items():
+        fresh, bad = set(), []
+        for meth, line in seq:
+            if meth not in per:
+                if g.method(meth)[0] is None:
+                    continue          # not a method of the grid (e.g. an attribute access)
+                raise Unsupported("forcing-grid method %s is called by the interaction but was not analysed" % meth)
+            for ev in per[meth]:
+                if ev[0] == "set":
+                    fresh.add(ev[1])
+                elif ev[0] == "get" and ev[1] in derived and ev[1] not in fresh:
+                    bad.append("%s (called at line %d) reads self.%s before this evaluation recomputed it" % (meth, line, ev[1]))
+        out[m] = (seq, sorted(set(bad)))
+    return sorted(derived), out
